@@ -838,33 +838,37 @@ func TestVerifEnumC05T2(t *testing.T) {
 		rot   int // which client addresses the sessions present (rotation of the list)
 	}
 	var scen []scenario
-	// a carrier-less gap of 45 s in the middle of a transfer (less than the one-minute retention): the session
-	// continues on the next carrier as the same connection.  On its own (not combined with the others): it
-	// takes a minute of real time.
-	scheduleWait["gap-45s-after-40"] = liveWait + 60*time.Second
-	longGap := schedule{"gap-45s-after-40", func(s *t2server, pc *cliPC, prefix []byte, ip1, ip2 string) (string, error) {
+	// a session that idles (carrier attached) until 27.5 s after it began, then has no carrier for 36 s (less
+	// than the one-minute retention) while the application writes, and continues on the next carrier as the
+	// same connection.  The gap covers the span from 30 s to 60 s of the session's life: keep-alive windows
+	// shorter than the retention time show there.  On its own (not combined with the others): it takes over a
+	// minute of real time.
+	scheduleWait["idle-27s-then-gap-36s"] = liveWait + 90*time.Second
+	longGap := schedule{"idle-27s-then-gap-36s", func(s *t2server, pc *cliPC, prefix []byte, ip1, ip2 string) (string, error) {
 		c, err := mustDial(s, ip1, prefix)
 		if err != nil {
 			return "", err
 		}
 		pc.attach(c)
-		pc.onSend = func(pc *cliPC, n int) {
-			if n == 40 {
-				pc.carriers[0].close()
-				go func() {
-					time.Sleep(45 * time.Second)
-					if c2, err := mustDial(s, ip1, prefix); err == nil {
-						pc.mu.Lock()
-						pc.attach(c2)
-						pc.mu.Unlock()
-					}
-				}()
-			}
+		t0 := time.Now()
+		pc.afterFirstEcho = func() {
+			time.Sleep(time.Until(t0.Add(27500 * time.Millisecond)))
+			pc.mu.Lock()
+			pc.carriers[0].close()
+			pc.mu.Unlock()
+			go func() {
+				time.Sleep(36 * time.Second)
+				if c2, err := mustDial(s, ip1, prefix); err == nil {
+					pc.mu.Lock()
+					pc.attach(c2)
+					pc.mu.Unlock()
+				}
+			}()
 		}
 		return ip1, nil
 	}}
 	allScs := append(append([]schedule{}, scs...), longGap)
-	scen = append(scen, scenario{"1x" + longGap.name + "/200000", []int{len(scs)}, 200000, 0})
+	scen = append(scen, scenario{"1x" + longGap.name + "/3000", []int{len(scs)}, 3000, 0})
 	for i := range scs {
 		for _, sz := range sizes {
 			scen = append(scen, scenario{fmt.Sprintf("1x%s/%d", scs[i].name, sz), []int{i}, sz, i + len(scen)})
